@@ -152,6 +152,49 @@ def handle (line : String) : String :=
           | none => answer model
       | _ => badCase "impl output"
     | _, _, _, _, _, _, _, _, _ => badCase "fields"
+  -- a run whose j-th temp-file write failed (write fault), observed at its end:
+  -- `wfail <delta> <compound> <compMeta> <shardMerging> <nNew> <oldMeta> <j> <e2e>` → `ops=… res=err dir=…`
+  | ["wfail", d, c, cm, sm, n, om, j, e2e] =>
+    match bool? d, bool? c, bool? cm, bool? sm, n.toNat?, parseBits om, j.toNat? with
+    | some d, some c, some cm, some sm, some n, some om, some j =>
+      let s : Scn := ⟨d, c, cm, sm, n, om⟩
+      if !s.WF then badCase "scenario not well-formed" else
+      let model :=
+        if j ≥ s.nNew + s.nSide then "ops=REJECT:no-such-temp-file"
+        else
+          let ops := writeFailOps s j
+          let dir := applyAll (oldDir s) ops
+          let shown := (ops.map fun o => (o, true)).filterMap showOp
+          s!"ops={if shown.isEmpty then "-" else ",".intercalate shown} res=err dir={showDir s dir}"
+      match fields impl with
+      | [_, ires, idir] =>
+        match parseDir (idir.drop 4).toString with
+        | none => badCase "impl dir"
+        | some id =>
+          let mv := classify s id
+          if mv != "mix" && mv != e2e then specFail model ("loader-model:" ++ mv ++ "-but-searcher-sees-" ++ e2e) else
+          if (ires.drop 4).toString == "ok" then specFail model ("false-success:write-fault:" ++ descr s) else
+          match checkP s true false true id with
+          | some key => specFail model ("write-fault:" ++ key)
+          | none =>
+            -- a failed run that installed nothing must leave exactly the old index
+            if mv != "old" && !(sameViewB (bound s) (oldDir s) (newDir s)) then specFail model ("write-fault-changed-index:" ++ descr s)
+            else answer model
+      | _ => badCase "impl output"
+    | _, _, _, _, _, _, _ => badCase "wfail fields"
+  -- an observation outside the model's traces (e.g. a kill in the middle of a file write): only the property is evaluated
+  -- `obs <delta> <compound> <compMeta> <shardMerging> <nNew> <oldMeta> <isEnd> <resOk> <faulted> <dir> <e2e>` → `obs`
+  | ["obs", d, c, cm, sm, n, om, ie, ro, fa, dir, e2e] =>
+    match bool? d, bool? c, bool? cm, bool? sm, n.toNat?, parseBits om, bool? ie, bool? ro, bool? fa, parseDir dir with
+    | some d, some c, some cm, some sm, some n, some om, some ie, some ro, some fa, some id =>
+      let s : Scn := ⟨d, c, cm, sm, n, om⟩
+      if !s.WF then badCase "scenario not well-formed" else
+      let mv := classify s id
+      if mv != "mix" && mv != e2e then specFail "obs" ("loader-model:" ++ mv ++ "-but-searcher-sees-" ++ e2e) else
+      match checkP s ie ro fa id with
+      | some key => specFail "obs" key
+      | none => answer "obs"
+    | _, _, _, _, _, _, _, _, _, _ => badCase "obs fields"
   | _ => badCase "op"
 
 def main : IO Unit := runLines handle
